@@ -91,6 +91,11 @@ var messages = []string{"", " ", "bad", "a message", "with: colon", ": leading c
 	"a very long message " + strings.Repeat("lorem ipsum ", 20), "[brackets] {braces} (parens)", "unexpected", "::", "-"}
 
 func genMsg(t *rapid.T, label string) string {
+	if rapid.IntRange(0, 99).Draw(t, label+"-long") == 0 {
+		// a long single-line message (a response body, a base64 blob): around the sizes at which readers of lines give up
+		n := rapid.SampledFrom([]int{4096, 32768, 40000, 65535, 65536, 70000}).Draw(t, label+"-length")
+		return "blob " + strings.Repeat("x", n) + " end"
+	}
 	if rapid.IntRange(0, 3).Draw(t, label+"-table") > 0 {
 		return rapid.SampledFrom(messages).Draw(t, label)
 	}
